@@ -11,6 +11,10 @@ Kinds of cases
   maptext  raw (mutated) mapping-file lines: parser vs model
   cli      `_add_metadata` (the add-metadata command) with mapping files for one or both axes;
            thorough: the `biom add-metadata` subprocess
+  prog     histories of 2-4 add/del steps over several tables (receiver, donor, partition()
+           siblings and their parent) where mapping values are the metadata OBJECTS another table
+           (or the receiver) holds for an id - the same object for two ids, objects of another
+           table - and ALL tables are observed after every step (aliasing between ids / tables)
 The model side is coq/Run/RunC18.v (extracted)."""
 import copy
 import io
@@ -37,7 +41,10 @@ RULE = ('add/del: tables.rand_spec (1..4 x 1..4, all layout recipes, metadata ki
         'absent keys on sample/observation/whole. map: grammar values (0-2 white-space lines, 1-5 columns, comment and blank '
         'items, rows with 1..n+1 cells, quoted / space-padded cells, ; and | separated, int, float columns, header override '
         'of 1..n names, the four strip_f variants) printed by harness and model. maptext: mutated files. cli: _add_metadata '
-        'with files for one or both axes. non-trivial = the operation changes / deletes at least one key, or the file has >= 1 '
+        'with files for one or both axes. prog: 2-3 tables (+ partition siblings of table 0) x 2-4 steps whose mapping entries '
+        'are literal dicts or references to the metadata object some table holds for an id (same object for two ids, another '
+        "table's objects, the receiver's own), every table snapshotted after every step. non-trivial = the operation "
+        'changes / deletes at least one key, or the file has >= 1 '
         'data row; distinct by case hash')
 TRUSTED = ['hand-written model coq/Model/Metadata.v tied to biom/table.py (add_metadata, del_metadata, _cast_metadata), '
            'biom/parse.py (MetadataMap.from_file) and biom/cli/metadata_adder.py (_add_metadata) by this correspondence run',
@@ -45,6 +52,7 @@ TRUSTED = ['hand-written model coq/Model/Metadata.v tied to biom/table.py (add_m
            'Python str.strip character class (validated in C03), str.replace, str.split',
            'extraction (ExtrOcamlBasic only) + ocaml/driver_tail.ml, cross-checked against vm_compute on a sample']
 ASSUMPTIONS = ['mappings are Python dicts (unique ids, unique keys)',
+               'a mapping does not hand add_metadata the live metadata objects of the very axis it updates',
                'metadata values are only moved, never inspected, by add/del',
                'float-typed columns hold dyadic rationals in generated files (exact wire coding)']
 
@@ -251,6 +259,8 @@ def run_impl(c):
             except Exception as e:
                 parsed = err(e)
             return {'lines': lines, 'parsed': parsed}
+        if k == 'prog':
+            return run_prog(c)
         if k == 'cli':
             tmp = tempfile.mkdtemp(prefix='c18_')
             t = tables.build(c['spec'])
@@ -279,6 +289,54 @@ def run_impl(c):
     finally:
         if tmp:
             shutil.rmtree(tmp, ignore_errors=True)
+
+
+def partition_specs(spec, key):
+    """what Table.partition(lambda i, m: m[key]) on the sample axis must give, group values sorted"""
+    out = []
+    for val in sorted(set(m[key] for m in spec['smd'])):
+        cols = [j for j, m in enumerate(spec['smd']) if m[key] == val]
+        out.append({'oids': list(spec['oids']), 'sids': [spec['sids'][j] for j in cols],
+                    'mat': [[row[j] for j in cols] for row in spec['mat']],
+                    'omd': copy.deepcopy(spec.get('omd')), 'smd': [copy.deepcopy(spec['smd'][j]) for j in cols],
+                    'type': None, 'layout': ['dense']})
+    return out
+
+
+def prog_specs(c):
+    specs = list(c['specs'])
+    if c.get('derive'):
+        specs += partition_specs(specs[0], c['derive'])
+    return specs
+
+
+def run_prog(c):
+    tabs = [tables.build(sp) for sp in c['specs']]
+    if c.get('derive'):
+        key = c['derive']
+        parts = dict(tabs[0].partition(lambda i, m: m[key]))
+        tabs += [parts[v] for v in sorted(parts)]
+    out = []
+    for st in c['steps']:
+        try:
+            if st[0] == 'add':
+                _, ti, axis, items = st
+                m = {}
+                for id_, src in items:
+                    if src[0] == 'lit':
+                        m[id_] = dict(src[1])
+                    else:
+                        obj = tabs[src[1]].metadata(src[3], axis=src[2])     # the object itself, no copy
+                        m[id_] = obj if obj is not None else {}
+                tabs[ti].add_metadata(m, axis=axis)
+            else:
+                _, ti, keys, axis = st
+                tabs[ti].del_metadata(keys=keys, axis=axis)
+        except Exception as e:
+            out.append(err(e))
+            break
+        out.append([snap(t) for t in tabs])
+    return out
 
 
 def cli_subprocess(t, c, tmp):
@@ -325,6 +383,16 @@ def encode(c):
     if k == 'maptext':
         return [2, conv_table(cells_of(c['lines'])), int(c['sq']), int(c['ss']), [cps(x) for x in (c['header'] or [])],
                 enc_opts(c['opts']), [cps(x) for x in c['lines']]]
+    if k == 'prog':
+        steps = []
+        for st in c['steps']:
+            if st[0] == 'add':
+                items = [[cps(i), [0, enc_entry(src[1])] if src[0] == 'lit' else [1, src[1], AX[src[2]], cps(src[3])]]
+                         for i, src in st[3]]
+                steps.append([0, st[1], AX[st[2]], items])
+            else:
+                steps.append([1, st[1], [] if st[2] is None else [[cps(x) for x in st[2]]], AX[st[3]]])
+        return [5, [enc_table(sp) for sp in prog_specs(c)], steps]
     if k == 'cli':
         lines = (c['samp'] or []) + (c['obs'] or [])
         return [3, conv_table(cells_of(lines)), enc_table(c['spec']),
@@ -344,6 +412,8 @@ def decode(tree, c):
                 if r[key] is not None and all(not e for e in r[key]):
                     r[key] = None
         return r
+    if k == 'prog':
+        return [[dec_table(t) for t in state] for state in tree]
     if k == 'maptext':
         return {'lines': list(c['lines']), 'parsed': dec_result(tree, dec_mapping)}
     lines = [uncps(x) for x in tree[0]]
@@ -422,6 +492,8 @@ def oracle(c, obs):
         if dict((i, e) for i, e in got) != dict((i, e) for i, e in want) or len(got) != len(want):
             fails.append('mapping file parsed to %r, its rows describe %r' % (got, want))
         return fails
+    if k == 'prog':
+        return oracle_prog(c, obs)
     if k == 'cli':
         if not c.get('wf'):
             return []
@@ -446,6 +518,59 @@ def oracle(c, obs):
                     fails.append('add-metadata on %s: id %r has %r, expected %r' % (ax, id_, got[i], want))
         return fails[:3]
     return []
+
+
+def oracle_prog(c, obs):
+    """reference with value semantics: every table is a plain snapshot, every referenced entry a copy"""
+    ref = [{'oids': list(sp['oids']), 'sids': list(sp['sids']), 'mat': [[float(v) for v in r] for r in sp['mat']],
+            'omd': norm_md(sp.get('omd')), 'smd': norm_md(sp.get('smd'))} for sp in prog_specs(c)]
+    fails = []
+    if len(obs) != len(c['steps']):
+        return ['the history stopped after %d of %d steps: %r' % (len(obs), len(c['steps']), obs[-1:] )]
+    for n, (st, state) in enumerate(zip(c['steps'], obs)):
+        if not isinstance(state, list) or (state and state[0] == 'err'):
+            return ['step %d %r failed: %r' % (n, st[0], state)]
+        ti = st[1]
+        if st[0] == 'add':
+            axis, items = st[2], st[3]
+            ids_key, md_key = ('oids', 'omd') if axis == 'observation' else ('sids', 'smd')
+            m = {}
+            for id_, src in items:
+                if src[0] == 'lit':
+                    m[id_] = copy.deepcopy(src[1])
+                else:
+                    d = ref[src[1]]
+                    k2, mk2 = ('oids', 'omd') if src[2] == 'observation' else ('sids', 'smd')
+                    m[id_] = copy.deepcopy(d[mk2][d[k2].index(src[3])]) if d[mk2] is not None else {}
+            t = ref[ti]
+            cur = md_or_empty(t[md_key], len(t[ids_key]))
+            for i, id_ in enumerate(t[ids_key]):
+                if id_ in m:
+                    cur[i].update(m[id_])
+            t[md_key] = cur
+        else:
+            keys, axis = st[2], st[3]
+            t = ref[ti]
+            for ax, ids_key, md_key in (('observation', 'oids', 'omd'), ('sample', 'sids', 'smd')):
+                if axis in (ax, 'whole'):
+                    cur = md_or_empty(t[md_key], len(t[ids_key]))
+                    t[md_key] = [{} if keys is None else {kk: v for kk, v in e.items() if kk not in keys} for e in cur]
+        for j, (got, want) in enumerate(zip(state, ref)):
+            who = 'the receiver' if j == ti else 'table %d (NOT the receiver, which is table %d)' % (j, ti)
+            if got['oids'] != want['oids'] or got['sids'] != want['sids']:
+                fails.append('after step %d ids of %s changed' % (n, who))
+            if [[float(v) for v in r] for r in got['mat']] != (want['mat'] if want['sids'] else [[] for _ in want['oids']]):
+                fails.append('after step %d the matrix of %s changed' % (n, who))
+            for ids_key, md_key in (('oids', 'omd'), ('sids', 'smd')):
+                g = md_or_empty(got[md_key], len(want[ids_key]))
+                w = md_or_empty(want[md_key], len(want[ids_key]))
+                for i, id_ in enumerate(want[ids_key]):
+                    if g[i] != w[i]:
+                        fails.append('after step %d (%s on table %d) id %r of %s has %r, expected %r'
+                                     % (n, st[0], ti, id_, who, g[i], w[i]))
+        if fails:
+            break
+    return fails[:3]
 
 
 def convert(kind, v):
@@ -736,6 +861,77 @@ def gen_cli(rng, via=None):
     return c
 
 
+def md_ids(spec, axis):
+    return spec['oids'] if axis == 'observation' else spec['sids']
+
+
+def gen_prog(rng):
+    scenario = rng.choice(['same_object', 'same_object', 'other_table', 'siblings', 'siblings', 'mixed'])
+    derive = None
+    if scenario == 'siblings':
+        parent = tables.rand_spec(rng, min_c=2, md='group', ttype=None)
+        parent['smd'] = [{'g': rng.choice(['x', 'y'])} for _ in parent['sids']]
+        parent['smd'][0]['g'], parent['smd'][-1]['g'] = 'x', 'y'
+        parent['omd'] = [{'tax': rng.choice(['a', 'b']), 'n': i} for i in range(len(parent['oids']))]
+        specs, derive = [parent, gen_spec(rng)], 'g'
+    else:
+        recv = gen_spec(rng)
+        if rng.random() < 0.6:
+            recv[rng.choice(['omd', 'smd'])] = None         # the "axis had no metadata" branch builds the tuple
+        donor = tables.rand_spec(rng, md=rng.choice(['text', 'num', 'tax', 'group']), ttype=None, opfx='d', spfx='r')
+        specs = [recv, donor]
+    ntab = len(specs) + (2 if derive else 0)
+    all_specs = specs + (partition_specs(specs[0], derive) if derive else [])
+
+    def ref_src(exclude=None):
+        # never the metadata objects of the very axis the call updates: `d.update` then reads entries
+        # that the same call has already changed (caller-side aliasing, outside the property)
+        cands = [(j, ax) for j in range(ntab) for ax in ('observation', 'sample')
+                 if norm_md(all_specs[j].get('omd' if ax == 'observation' else 'smd')) is not None
+                 and (j, ax) != exclude]
+        if not cands:
+            return ['lit', {'k0': 'v'}]
+        j, ax = rng.choice(cands)
+        return ['ref', j, ax, rng.choice(md_ids(all_specs[j], ax))]
+
+    steps = []
+    if scenario == 'siblings':
+        x = len(specs)                        # first sibling
+        ax = rng.choice(['observation', 'observation', 'sample'])
+        ids = md_ids(all_specs[x], ax)
+        steps.append(['add', rng.choice([x, x + 1, 0]), ax if ax == 'observation' else 'observation',
+                      [[rng.choice(all_specs[0]['oids']), ['lit', {'tax': 'CHANGED', 'new': 1}]]]])
+        if rng.random() < 0.5:
+            steps.append(['del', rng.choice([x, x + 1, 0]), [rng.choice(['tax', 'n', 'g'])], rng.choice(['observation', 'whole'])])
+    else:
+        ti = 0
+        ax = rng.choice(['observation', 'sample'])
+        ids = md_ids(all_specs[ti], ax)
+        src = ref_src((ti, ax))
+        chosen = [i for i in ids if rng.random() < 0.7] or ids[:1]
+        items = [[i, list(src) if rng.random() < 0.8 else ref_src((ti, ax))] for i in chosen]
+        if rng.random() < 0.3:
+            items.append(['zz0', list(src)])
+        steps.append(['add', ti, ax, items])
+        # second step names only one of them
+        steps.append(['add', ti, ax, [[chosen[0], ['lit', {'barcode': 'ACGT', rng.choice(NEWKEYS): 5}]]]])
+        if scenario in ('other_table', 'mixed') and src[0] == 'ref':
+            steps.append(['add', src[1], src[2], [[src[3], ['lit', {'late': True}]]]])
+    while len(steps) < 4 and rng.random() < 0.5:
+        ti = rng.randrange(ntab)
+        ax = rng.choice(['observation', 'sample'])
+        ids = md_ids(all_specs[ti], ax)
+        if rng.random() < 0.6:
+            steps.append(['add', ti, ax, [[rng.choice(ids), ref_src((ti, ax)) if rng.random() < 0.5 else
+                                           ['lit', {rng.choice(NEWKEYS + ['g', 'tax', 'k']): copy.deepcopy(rng.choice(VALS))}]]
+                                          for _ in range(rng.randint(1, 2))]])
+            steps[-1][3] = [list(x) for x in dict((i, tuple(s_)) for i, s_ in steps[-1][3]).items()]
+            steps[-1][3] = [[i, list(s_)] for i, s_ in steps[-1][3]]
+        else:
+            steps.append(['del', ti, rng.choice([None, ['barcode'], ['g', 'k'], ['tax', 'new']]), rng.choice(['sample', 'observation', 'whole'])])
+    return {'kind': 'prog', 'specs': specs, 'derive': derive, 'steps': steps, 'scenario': scenario}
+
+
 def gen(rng, tier):
     n = 1 if tier == 'quick' else 10
     for _ in range(220 * n):
@@ -748,6 +944,8 @@ def gen(rng, tier):
         yield gen_maptext(rng)
     for _ in range(100 * n):
         yield gen_cli(rng)
+    for _ in range(150 * n):
+        yield gen_prog(rng)
     if tier == 'thorough':
         for _ in range(40):
             yield gen_cli(rng, 'subprocess')
@@ -768,6 +966,8 @@ def nontrivial(c):
         return well_formed(c)
     if k == 'maptext':
         return len(c['lines']) > 1
+    if k == 'prog':
+        return len(c['steps']) >= 2 or bool(c.get('derive'))
     return bool(c.get('wf'))
 
 
@@ -801,6 +1001,11 @@ def classify(c):
                 tags.append('col:' + name)
         if any(len(b) < len(c['g']['names']) for kk, b in c['g']['items'] if kk == 'r'):
             tags.append('short-row')
+    if k == 'prog':
+        tags.append('prog:' + c.get('scenario', '?'))
+        tags.append('steps:%d' % len(c['steps']))
+        if any(src[0] == 'ref' for st in c['steps'] if st[0] == 'add' for _, src in st[3]):
+            tags.append('prog:object-reference')
     if k == 'cli':
         tags.append('files:%s%s' % ('s' if c['samp'] is not None else '-', 'o' if c['obs'] is not None else '-'))
         tags.append('via:' + c['via'])
@@ -828,6 +1033,17 @@ def shrink(c):
         ls = c['lines']
         for i in range(len(ls)):
             yield dict(c, lines=ls[:i] + ls[i + 1:])
+    if k == 'prog':
+        st = c['steps']
+        for i in range(len(st)):
+            yield dict(c, steps=st[:i] + st[i + 1:])
+        for i, x in enumerate(st):
+            if x[0] == 'add' and len(x[3]) > 1:
+                for j in range(len(x[3])):
+                    yield dict(c, steps=st[:i] + [[x[0], x[1], x[2], x[3][:j] + x[3][j + 1:]]] + st[i + 1:])
+        for j, sp in enumerate(c['specs']):
+            if sp.get('layout') and sp['layout'] != ['dense']:
+                yield dict(c, specs=c['specs'][:j] + [dict(sp, layout=['dense'])] + c['specs'][j + 1:])
     if k == 'map':
         items = c['g']['items']
         for i in range(len(items)):
